@@ -1,16 +1,19 @@
+\* EarlyP2: the coordinator's rollback may overtake phase one (P2Early).  One mode only: no action reads `mode`
+\* (it is an attribute of scenarios and traces), two modes only double the state space.
 SPECIFICATION Spec
 CONSTANTS
   Conns = {1, 2}
   Ids = {"good"}
   RegReplies = {"ok", "fail", "neterr"}
-  Modes = {"auto", "explicit"}
+  Modes = {"auto"}
   Strict = TRUE
   MaxFaults = 2
   MaxDml = 1
+  EarlyP2 = TRUE
   MaxP2 = 2
   MaxCmds = 9
 VIEW View
 CONSTRAINT Bounded
 INVARIANTS TypeOK LegalSequence AcceptedLegal RegisterBeforeStart OneIdentifier NoCommitAfterFailure ErrorSurfaces
-  RolledBackOnFailure PhaseOneComplete PoolClean ExactlyOneOutcome NothingEarly
+  RolledBackOnFailure PhaseOneComplete PoolClean ExactlyOneOutcome NothingEarly RolledBackStays
 CHECK_DEADLOCK FALSE
